@@ -284,7 +284,17 @@ def main():
         res = json.load(open(ROOT + '/check.json')) if os.path.exists(ROOT + '/check.json') else {}
         todo = [m for m in muts if m['id'] in suite and ' failed' not in suite[m['id']]
                 and ' error' not in suite[m['id']] and ' passed' in suite[m['id']] and m['id'] not in res]
-        # cheap checks first
+        stride = int(os.environ.get('AUTOMUT_STRIDE', '1'))
+        if stride > 1:
+            # every stride-th unnoticed mutant of each check, in source order (a stated subset)
+            seen = {}
+            keep = []
+            for m in todo:
+                k = seen.get(m['check'], 0)
+                seen[m['check']] = k + 1
+                if k % stride == 0:
+                    keep.append(m)
+            todo = keep
         with multiprocessing.Pool(n) as pool:
             for k, (mid, rc, cls) in enumerate(pool.imap_unordered(check_one, todo)):
                 res[mid] = [rc, cls]
